@@ -37,7 +37,7 @@ verus! {
 impl OpcodeKind {
 //@fn src/opcodes.rs OpcodeKind::as_u8
 //@ret r
-//@props C04 C05 C06 C10
+//@props C04 C05 C06 C10 C09
 //@contract
     ensures r as int == ref_code(self), // @C04
 //@endfn
@@ -49,13 +49,13 @@ impl Stack {
     }
 
 //@fn src/stack.rs Stack::reset
-//@props C01 C02 C03 C05 C06 C10 C11 C17
+//@props C01 C02 C03 C05 C06 C10 C11 C17 C09
 //@contract
     ensures final(self).view() == Seq::<Kind>::empty(),
 //@endfn
 
 //@fn src/stack.rs Stack::push
-//@props C01 C02 C03 C05 C06 C10 C11 C17
+//@props C01 C02 C03 C05 C06 C10 C11 C17 C09
 //@contract
     ensures final(self).view() == old(self).view().push(kind_of(value)),
 //@after 1 self.inner.push(
@@ -63,7 +63,7 @@ impl Stack {
 //@endfn
 
 //@fn src/stack.rs Stack::pop
-//@props C01 C02 C03 C05 C06 C10 C11 C17
+//@props C01 C02 C03 C05 C06 C10 C11 C17 C09
 //@ret r
 //@contract
     ensures
@@ -73,7 +73,7 @@ impl Stack {
 //@endfn
 
 //@fn src/stack.rs Stack::peek
-//@props C01 C02 C03 C05 C06 C10 C11 C17
+//@props C01 C02 C03 C05 C06 C10 C11 C17 C09
 //@ret r
 //@contract
     ensures
@@ -82,7 +82,7 @@ impl Stack {
 //@endfn
 
 //@fn src/stack.rs Stack::len
-//@props C01 C02 C03 C05 C06 C10 C11 C17
+//@props C01 C02 C03 C05 C06 C10 C11 C17 C09
 //@ret r
 //@contract
     ensures r == self.view().len(),
@@ -119,7 +119,7 @@ pub open spec fn arg_link(op: OpcodeKind, arg_bytes: Option<&[u8]>, a: RefArg) -
 
 impl State {
 //@fn src/state.rs State::reset
-//@props C08 C01
+//@props C08 C01 C09
 //@contract
     ensures
         !final(self).proto_emitted,
@@ -152,7 +152,7 @@ impl Generator {
     }
 
 //@fn src/generator/utils.rs Generator::peek
-//@props C01 C02 C03 C05 C06 C10 C11 C17
+//@props C01 C02 C03 C05 C06 C10 C11 C17 C09
 //@ret r
 //@contract
     ensures
@@ -161,7 +161,7 @@ impl Generator {
 //@endfn
 
 //@fn src/generator/utils.rs Generator::push
-//@props C01 C02 C03 C05 C06 C10 C11 C17
+//@props C01 C02 C03 C05 C06 C10 C11 C17 C09
 //@contract
     ensures
         final(self).view() == old(self).view().push(kind_of(value)),
@@ -171,7 +171,7 @@ impl Generator {
 //@endfn
 
 //@fn src/generator/utils.rs Generator::pop
-//@props C01 C02 C03 C05 C06 C10 C11 C17
+//@props C01 C02 C03 C05 C06 C10 C11 C17 C09
 //@ret r
 //@contract
     ensures
@@ -184,7 +184,7 @@ impl Generator {
 //@endfn
 
 //@fn src/generator/utils.rs Generator::get
-//@props C01 C02 C03 C05 C06 C10 C11 C17
+//@props C01 C02 C03 C05 C06 C10 C11 C17 C09
 //@ret r
 //@contract
     ensures
@@ -193,7 +193,7 @@ impl Generator {
 //@endfn
 
 //@fn src/generator/utils.rs Generator::put
-//@props C01 C02 C03 C05 C06 C10 C11 C17
+//@props C01 C02 C03 C05 C06 C10 C11 C17 C09
 //@contract
     ensures
         final(self).state.memo@.dom() == old(self).state.memo@.dom().insert(index),
@@ -205,7 +205,7 @@ impl Generator {
 //@endfn
 
 //@fn src/generator/utils.rs Generator::peek_at
-//@props C01 C02 C03 C05 C06 C10 C11 C17
+//@props C01 C02 C03 C05 C06 C10 C11 C17 C09
 //@ret r
 //@contract
     ensures
@@ -214,42 +214,42 @@ impl Generator {
 //@endfn
 
 //@fn src/generator/utils.rs Generator::is_list_at
-//@props C01 C02 C03 C05 C06 C10 C11 C17
+//@props C01 C02 C03 C05 C06 C10 C11 C17 C09
 //@ret r
 //@contract
     ensures r == (depth < self.view().len() && at(self.view(), depth as int) == Kind::List),
 //@endfn
 
 //@fn src/generator/utils.rs Generator::is_dict_at
-//@props C01 C02 C03 C05 C06 C10 C11 C17
+//@props C01 C02 C03 C05 C06 C10 C11 C17 C09
 //@ret r
 //@contract
     ensures r == (depth < self.view().len() && at(self.view(), depth as int) == Kind::Dict),
 //@endfn
 
 //@fn src/generator/utils.rs Generator::is_tuple_at
-//@props C01 C02 C03 C05 C06 C10 C11 C17
+//@props C01 C02 C03 C05 C06 C10 C11 C17 C09
 //@ret r
 //@contract
     ensures r == (depth < self.view().len() && at(self.view(), depth as int) == Kind::Tuple),
 //@endfn
 
 //@fn src/generator/utils.rs Generator::is_instance_at
-//@props C01 C02 C03 C05 C06 C10 C11 C17
+//@props C01 C02 C03 C05 C06 C10 C11 C17 C09
 //@ret r
 //@contract
     ensures r == (depth < self.view().len() && at(self.view(), depth as int) == Kind::Instance),
 //@endfn
 
 //@fn src/generator/utils.rs Generator::is_string_at
-//@props C01 C02 C03 C05 C06 C10 C11 C17
+//@props C01 C02 C03 C05 C06 C10 C11 C17 C09
 //@ret r
 //@contract
     ensures r == (depth < self.view().len() && at(self.view(), depth as int) == Kind::String),
 //@endfn
 
 //@fn src/generator/utils.rs Generator::is_callable_at
-//@props C01 C02 C03 C05 C06 C10 C11 C17
+//@props C01 C02 C03 C05 C06 C10 C11 C17 C09
 //@ret r
 //@contract
     ensures r == (depth < self.view().len()
@@ -257,7 +257,7 @@ impl Generator {
 //@endfn
 
 //@fn src/generator/utils.rs Generator::has_mark
-//@props C01 C02 C03 C05 C06 C10 C11 C17
+//@props C01 C02 C03 C05 C06 C10 C11 C17 C09
 //@ret r
 //@rewrite R3
 //@contract
@@ -275,7 +275,7 @@ impl Generator {
 //@endfn
 
 //@fn src/generator/utils.rs Generator::count_items_to_mark
-//@props C01 C02 C03 C05 C06 C10 C11 C17
+//@props C01 C02 C03 C05 C06 C10 C11 C17 C09
 //@ret r
 //@rewrite R2
 //@contract
@@ -294,7 +294,7 @@ impl Generator {
 //@endfn
 
 //@fn src/generator/utils.rs Generator::is_list_at_mark
-//@props C01 C02 C03 C05 C06 C10 C11 C17
+//@props C01 C02 C03 C05 C06 C10 C11 C17 C09
 //@ret r
 //@rewrite R1
 //@contract
@@ -311,7 +311,7 @@ impl Generator {
 //@endfn
 
 //@fn src/generator/utils.rs Generator::is_dict_at_mark
-//@props C01 C02 C03 C05 C06 C10 C11 C17
+//@props C01 C02 C03 C05 C06 C10 C11 C17 C09
 //@ret r
 //@rewrite R1
 //@contract
@@ -328,7 +328,7 @@ impl Generator {
 //@endfn
 
 //@fn src/generator/utils.rs Generator::is_set_at_mark
-//@props C01 C02 C03 C05 C06 C10 C11 C17
+//@props C01 C02 C03 C05 C06 C10 C11 C17 C09
 //@ret r
 //@rewrite R1
 //@contract
@@ -345,7 +345,7 @@ impl Generator {
 //@endfn
 
 //@fn src/generator/utils.rs Generator::is_callable_above_mark
-//@props C01 C02 C03 C05 C06 C10 C11 C17
+//@props C01 C02 C03 C05 C06 C10 C11 C17 C09
 //@ret r
 //@rewrite R1
 //@contract
@@ -390,7 +390,7 @@ impl Generator {
 //@rewrite R11?
 //@prelude
         proof { lemma_top_mark_compat(self.view(), r.stack); lemma_top_mark_props(r.stack); }
-//@props C01 C02 C03 C05 C06 C10 C17
+//@props C01 C02 C03 C05 C06 C10 C17 C09
 //@contract
     requires
         self.rel(r),
@@ -465,16 +465,16 @@ impl Generator {
 
 //@arms src/generator/stack_ops.rs Generator::process_stack_ops opcode
 //@ghost Ghost(r): Ghost<RefState>, Ghost(a): Ghost<RefArg>
-//@props C01 C02 C03 C17
+//@props C01 C02 C03 C17 C09
 //@prelude
         proof { lemma_top_mark_compat(self.view(), r.stack); lemma_top_mark_props(r.stack); }
 //@contract
     requires
         old(self).rel(r),
         !old(self).unsafe_mutations,
-        ref_pre(opcode, a, r),
-        old(self).sim_pre(opcode),
-        arg_link(opcode, arg_bytes, a),
+        ref_pre(opcode, a, r), // @C01 @C02 @C03
+        old(self).sim_pre(opcode), // @C17
+        arg_link(opcode, arg_bytes, a), // @C17 @C04
     ensures
         shape_eq(final(self).view(), sim_step(opcode, a, r).stack), // @C01 @C03 @C17
         kinds_ok(final(self).view(), sim_step(opcode, a, r).stack), // @C03 @C17
@@ -559,15 +559,15 @@ impl Generator {
 
 //@fn src/generator/emission.rs Generator::emit_opcode
 //@ghost Ghost(r): Ghost<RefState>
-//@props C01 C02 C03 C04 C05 C17
+//@props C01 C02 C03 C04 C05 C17 C09
 //@rewrite R14 process_stack_ops self.process_stack_ops($ARGS, Ghost(r), Ghost(RefArg { idx: 0 }))
 //@contract
     requires
         old(self).rel(r),
         !old(self).unsafe_mutations,
-        ref_pre(opcode, RefArg { idx: 0 }, r),
-        old(self).sim_pre(opcode),
-        arg_link(opcode, None, RefArg { idx: 0 }),
+        ref_pre(opcode, RefArg { idx: 0 }, r), // @C01 @C02 @C03
+        old(self).sim_pre(opcode), // @C17
+        arg_link(opcode, None, RefArg { idx: 0 }), // @C17 @C04
     ensures
         final(self).rel(sim_step(opcode, RefArg { idx: 0 }, r)), // @C17 @C01
         final(self).output@ == old(self).output@.push(ref_code(opcode) as u8), // @C04
@@ -730,7 +730,7 @@ pub fn get_random_module(&self, source: &mut GenerationSource) -> (r: Result<VfT
 //@arms src/generator/emission.rs Generator::emit_and_process opcode
 //@ret res
 //@ghost Ghost(r): Ghost<RefState>
-//@props C01 C02 C03 C05 C10 C11 C17
+//@props C01 C02 C03 C05 C10 C11 C17 C09
 //@sigsubst Result<()> => Result<(), VfError>
 //@use EMIT_CONTRACT
 //@arm Int | Long | Long1 | Long4 | BinInt | BinInt1 | BinInt2
@@ -742,6 +742,8 @@ pub fn get_random_module(&self, source: &mut GenerationSource) -> (r: Result<VfT
         proof {
             let chunk = self.output@.subrange(old(self).output@.len() as int, self.output@.len() as int);
             assert(self.output@ =~= old(self).output@ + chunk);
+            assert(chunk.len() >= 1 && chunk[0] == ref_code(opcode) as u8); // @C04 @C11
+            assert(self.rel(ref_step(opcode, RefArg { idx: 0 }, r))); // @C17
             assert(self.emit_post(old(self), r, opcode, opcode, RefArg { idx: 0 }, chunk));
         }
 //@arm BinFloat
@@ -751,6 +753,8 @@ pub fn get_random_module(&self, source: &mut GenerationSource) -> (r: Result<VfT
         proof {
             let chunk = self.output@.subrange(old(self).output@.len() as int, self.output@.len() as int);
             assert(self.output@ =~= old(self).output@ + chunk);
+            assert(chunk.len() >= 1 && chunk[0] == ref_code(opcode) as u8); // @C04 @C11
+            assert(self.rel(ref_step(opcode, RefArg { idx: 0 }, r))); // @C17
             assert(self.emit_post(old(self), r, opcode, opcode, RefArg { idx: 0 }, chunk));
         }
 //@arm String | Unicode | ShortBinUnicode | BinUnicode | BinUnicode8
@@ -769,6 +773,9 @@ pub fn get_random_module(&self, source: &mut GenerationSource) -> (r: Result<VfT
             let ga = RefArg { idx: old(self).state.memo@.len() as int };
             let chunk = self.output@.subrange(old(self).output@.len() as int, self.output@.len() as int);
             assert(self.output@ =~= old(self).output@ + chunk);
+            assert(chunk.len() >= 1 && chunk[0] == ref_code(opcode) as u8); // @C04 @C11
+            assert(ref_pre(opcode, ga, r)); // @C02 @C01
+            assert(self.rel(ref_step(opcode, ga, r))); // @C17 @C02
             assert(self.emit_post(old(self), r, opcode, opcode, ga, chunk));
         }
 //@arm BinPut
@@ -780,6 +787,9 @@ pub fn get_random_module(&self, source: &mut GenerationSource) -> (r: Result<VfT
             let ga = RefArg { idx: old(self).state.memo@.len() as int };
             let chunk = self.output@.subrange(old(self).output@.len() as int, self.output@.len() as int);
             assert(self.output@ =~= old(self).output@ + chunk);
+            assert(chunk.len() >= 1 && chunk[0] == ref_code(opcode) as u8); // @C04 @C11
+            assert(ref_pre(opcode, ga, r)); // @C02 @C01
+            assert(self.rel(ref_step(opcode, ga, r))); // @C17 @C02
             assert(self.emit_post(old(self), r, opcode, opcode, ga, chunk));
         }
 //@arm LongBinPut
@@ -792,6 +802,9 @@ pub fn get_random_module(&self, source: &mut GenerationSource) -> (r: Result<VfT
             let ga = RefArg { idx: old(self).state.memo@.len() as int };
             let chunk = self.output@.subrange(old(self).output@.len() as int, self.output@.len() as int);
             assert(self.output@ =~= old(self).output@ + chunk);
+            assert(chunk.len() >= 1 && chunk[0] == ref_code(opcode) as u8); // @C04 @C11
+            assert(ref_pre(opcode, ga, r)); // @C02 @C01
+            assert(self.rel(ref_step(opcode, ga, r))); // @C17 @C02
             assert(self.emit_post(old(self), r, opcode, opcode, ga, chunk));
         }
 //@arm Get
@@ -811,6 +824,8 @@ pub fn get_random_module(&self, source: &mut GenerationSource) -> (r: Result<VfT
         proof {
             let chunk = self.output@.subrange(old(self).output@.len() as int, self.output@.len() as int);
             assert(self.output@ =~= old(self).output@ + chunk);
+            assert(chunk.len() >= 1 && chunk[0] == ref_code(opcode) as u8); // @C04 @C11
+            assert(self.rel(ref_step(opcode, RefArg { idx: gidx }, r))); // @C17 @C02
             assert(self.emit_post(old(self), r, opcode, opcode, RefArg { idx: gidx }, chunk));
         }
 //@arm BinGet
@@ -832,6 +847,8 @@ pub fn get_random_module(&self, source: &mut GenerationSource) -> (r: Result<VfT
         proof {
             let chunk = self.output@.subrange(old(self).output@.len() as int, self.output@.len() as int);
             assert(self.output@ =~= old(self).output@ + chunk);
+            assert(chunk.len() >= 1 && chunk[0] == ref_code(opcode) as u8); // @C04 @C11
+            assert(self.rel(ref_step(opcode, RefArg { idx: gidx }, r))); // @C17 @C02
             assert(self.emit_post(old(self), r, opcode, opcode, RefArg { idx: gidx }, chunk));
         }
 //@arm LongBinGet
@@ -851,6 +868,8 @@ pub fn get_random_module(&self, source: &mut GenerationSource) -> (r: Result<VfT
         proof {
             let chunk = self.output@.subrange(old(self).output@.len() as int, self.output@.len() as int);
             assert(self.output@ =~= old(self).output@ + chunk);
+            assert(chunk.len() >= 1 && chunk[0] == ref_code(opcode) as u8); // @C04 @C11
+            assert(self.rel(ref_step(opcode, RefArg { idx: gidx }, r))); // @C17 @C02
             assert(self.emit_post(old(self), r, opcode, opcode, RefArg { idx: gidx }, chunk));
         }
 //@arm Ext1
@@ -861,6 +880,8 @@ pub fn get_random_module(&self, source: &mut GenerationSource) -> (r: Result<VfT
         proof {
             let chunk = self.output@.subrange(old(self).output@.len() as int, self.output@.len() as int);
             assert(self.output@ =~= old(self).output@ + chunk);
+            assert(chunk.len() >= 1 && chunk[0] == ref_code(opcode) as u8); // @C04 @C11
+            assert(self.rel(ref_step(opcode, RefArg { idx: 0 }, r))); // @C17
             assert(self.emit_post(old(self), r, opcode, opcode, RefArg { idx: 0 }, chunk));
         }
 //@arm Ext2
@@ -872,6 +893,8 @@ pub fn get_random_module(&self, source: &mut GenerationSource) -> (r: Result<VfT
         proof {
             let chunk = self.output@.subrange(old(self).output@.len() as int, self.output@.len() as int);
             assert(self.output@ =~= old(self).output@ + chunk);
+            assert(chunk.len() >= 1 && chunk[0] == ref_code(opcode) as u8); // @C04 @C11
+            assert(self.rel(ref_step(opcode, RefArg { idx: 0 }, r))); // @C17
             assert(self.emit_post(old(self), r, opcode, opcode, RefArg { idx: 0 }, chunk));
         }
 //@arm Ext4
@@ -882,6 +905,8 @@ pub fn get_random_module(&self, source: &mut GenerationSource) -> (r: Result<VfT
         proof {
             let chunk = self.output@.subrange(old(self).output@.len() as int, self.output@.len() as int);
             assert(self.output@ =~= old(self).output@ + chunk);
+            assert(chunk.len() >= 1 && chunk[0] == ref_code(opcode) as u8); // @C04 @C11
+            assert(self.rel(ref_step(opcode, RefArg { idx: 0 }, r))); // @C17
             assert(self.emit_post(old(self), r, opcode, opcode, RefArg { idx: 0 }, chunk));
         }
 //@arm PersID
@@ -891,6 +916,8 @@ pub fn get_random_module(&self, source: &mut GenerationSource) -> (r: Result<VfT
         proof {
             let chunk = self.output@.subrange(old(self).output@.len() as int, self.output@.len() as int);
             assert(self.output@ =~= old(self).output@ + chunk);
+            assert(chunk.len() >= 1 && chunk[0] == ref_code(opcode) as u8); // @C04 @C11
+            assert(self.rel(ref_step(opcode, RefArg { idx: 0 }, r))); // @C17
             assert(self.emit_post(old(self), r, opcode, opcode, RefArg { idx: 0 }, chunk));
         }
 //@arm Inst
@@ -899,9 +926,12 @@ pub fn get_random_module(&self, source: &mut GenerationSource) -> (r: Result<VfT
         proof {
             let chunk = self.output@.subrange(old(self).output@.len() as int, self.output@.len() as int);
             assert(self.output@ =~= old(self).output@ + chunk);
+            assert(chunk.len() >= 1 && chunk[0] == ref_code(opcode) as u8); // @C04 @C11
+            assert(self.rel(ref_step(opcode, RefArg { idx: 0 }, r))); // @C17
             assert(self.emit_post(old(self), r, opcode, opcode, RefArg { idx: 0 }, chunk));
         }
 //@arm Frame
+//@unreachable
 //@subst unreachable!("Frame should not be emitted during generation") => vf_unreachable()
 //@arm _
 //@rewrite R14 emit_opcode self.emit_opcode($1, Ghost(r))
@@ -918,12 +948,12 @@ pub fn get_random_module(&self, source: &mut GenerationSource) -> (r: Result<VfT
 //@endfn
 
 //@fn src/generator/emission.rs Generator::emit_proto
-//@props C05 C06 C08
+//@props C05 C06 C08 C09
 //@subst self.state.version as u8 => vf_version_u8(self.state.version)
 //@contract
     requires
-        old(self).output@.len() == 0,
-        !old(self).state.proto_emitted,
+        old(self).output@.len() == 0, // @C08 @C05
+        !old(self).state.proto_emitted, // @C08 @C05
     ensures
         ver_num(old(self).state.version) >= 2 ==> final(self).output@ == seq![0x80u8, ver_num(old(self).state.version) as u8] && final(self).state.proto_emitted, // @C05
         ver_num(old(self).state.version) < 2 ==> final(self).output@ == Seq::<u8>::empty() && !final(self).state.proto_emitted, // @C05
@@ -944,7 +974,7 @@ pub fn get_random_module(&self, source: &mut GenerationSource) -> (r: Result<VfT
     }
 
 //@fn src/generator/mod.rs Generator::reset
-//@props C08 C01 C05 C06
+//@props C08 C01 C05 C06 C09
 //@contract
     ensures
         final(self).output@ == Seq::<u8>::empty(), // @C08
@@ -961,7 +991,7 @@ pub fn get_random_module(&self, source: &mut GenerationSource) -> (r: Result<VfT
 //@fn src/generator/validation.rs Generator::get_valid_opcodes
 //@ret res
 //@ghost Ghost(r): Ghost<RefState>
-//@props C01 C03 C05 C10 C11
+//@props C01 C03 C05 C10 C11 C09
 //@subst self.state.version as u8 => vf_version_u8(self.state.version)
 //@subst PICKLE_OPCODES.get(&version) => vf_pickle_opcodes(version)
 //@rewrite R15
@@ -984,7 +1014,7 @@ pub fn get_random_module(&self, source: &mut GenerationSource) -> (r: Result<VfT
 
 //@fn src/generator/validation.rs Generator::weighted_choice
 //@ret res
-//@props C01 C11
+//@props C01 C11 C09
 //@contract
     ensures
         opcodes@.len() > 0 ==> opcodes@.contains(res),
@@ -1066,14 +1096,15 @@ pub fn get_random_module(&self, source: &mut GenerationSource) -> (r: Result<VfT
 //@loop 1
             invariant
                 !self.unsafe_mutations, self.same_config_but_proto(old(self)),
-                ver_num(self.state.version) >= 2 ==> self.state.proto_emitted,
-                self.rel(gr), contig(gr),
-                gr == ref_run(empty_state(), gtr), ref_run_ok(empty_state(), gtr),
-                gtr.len() == vf_i, vf_i <= target_opcodes,
-                forall|i: int| 0 <= i < gtr.len() ==> old(self).op_ok(#[trigger] gtr[i].0),
-                Generator::body_wf(gch, gtr),
-                self.output@ == hdr0 + flat(gch), hdr0.len() == h,
-                gr.stack.len() <= gtr.len(), 0 <= gr.memo_len <= gtr.len(),
+                ver_num(self.state.version) >= 2 ==> self.state.proto_emitted, // @C05
+                self.rel(gr), // @C17 @C01 @C02 @C03
+                contig(gr), // @C02
+                gr == ref_run(empty_state(), gtr), ref_run_ok(empty_state(), gtr), // @C01 @C02 @C03
+                gtr.len() == vf_i, vf_i <= target_opcodes, // @C11
+                forall|i: int| 0 <= i < gtr.len() ==> old(self).op_ok(#[trigger] gtr[i].0), // @C05 @C10 @C06
+                Generator::body_wf(gch, gtr), // @C11 @C04
+                self.output@ == hdr0 + flat(gch), hdr0.len() == h, // @C08 @C06 @C11
+                gr.stack.len() <= gtr.len(), 0 <= gr.memo_len <= gtr.len(), // @C11
                 target_opcodes < 0x1_0000_0000,
             ensures
                 gtr.len() == target_opcodes,
@@ -1110,16 +1141,16 @@ pub fn get_random_module(&self, source: &mut GenerationSource) -> (r: Result<VfT
         proof {
             let out = self.output@;
             let v = ver_num(old(self).state.version);
-            assert(ref_run_ok(empty_state(), (gtr + tail).push((OpcodeKind::Stop, a0))));
-            assert(forall|i: int| 0 <= i < gtr.len() ==> old(self).op_ok(#[trigger] gtr[i].0));
-            assert(forall|i: int| 0 <= i < tail.len() ==> Generator::tail_op(#[trigger] tail[i].0, old(self).state.version));
-            assert(gtr.len() == target_opcodes as int && old(self).min_opcodes <= target_opcodes);
-            assert(tail.len() <= 2 * target_opcodes + 1);
-            assert(v >= 2 ==> out.len() >= 2 && out[0] == 0x80 && out[1] == v);
-            assert(use_frame ==> v >= 4 && out.len() >= 11 && out[2] == 0x95);
-            assert(use_frame ==> vstd::bytes::spec_u64_from_le_bytes(out.subrange(3, 11)) == out.len() - 11);
+            assert(ref_run_ok(empty_state(), (gtr + tail).push((OpcodeKind::Stop, a0)))); // @C01 @C02 @C03
+            assert(forall|i: int| 0 <= i < gtr.len() ==> old(self).op_ok(#[trigger] gtr[i].0)); // @C05 @C10 @C06
+            assert(forall|i: int| 0 <= i < tail.len() ==> Generator::tail_op(#[trigger] tail[i].0, old(self).state.version)); // @C05 @C10
+            assert(gtr.len() == target_opcodes as int && old(self).min_opcodes <= target_opcodes); // @C11
+            assert(tail.len() <= 2 * target_opcodes + 1); // @C11
+            assert(v >= 2 ==> out.len() >= 2 && out[0] == 0x80 && out[1] == v); // @C05 @C08
+            assert(use_frame ==> v >= 4 && out.len() >= 11 && out[2] == 0x95); // @C06 @C08
+            assert(use_frame ==> vstd::bytes::spec_u64_from_le_bytes(out.subrange(3, 11)) == out.len() - 11); // @C06
             assert(out.len() >= h);
-            assert(out.subrange(h, out.len() as int) =~= flat(gch) + codes(tail) + seq![0x2eu8]);
+            assert(out.subrange(h, out.len() as int) =~= flat(gch) + codes(tail) + seq![0x2eu8]); // @C08 @C06 @C11
             assert(self.same_config_but_proto(old(self)));
             assert(self.gen_post(old(self), out, target_opcodes as int, use_frame, gtr, tail, gch));
         }
